@@ -156,8 +156,16 @@ class Ctx:
             targets = [f"Props/{self.prop}.vo"] + list(extra_targets)
             if os.path.exists(os.path.join(COQ, "Corr", f"{self.prop}.v")):
                 targets.append(f"Corr/{self.prop}.vo")
-            r = subprocess.run(["timeout", "1500", "make", "-f", "Makefile.coq", "-j8"] + force + targets, cwd=COQ,
-                               capture_output=True, text=True)
+            for attempt in range(3):
+                r = subprocess.run(["timeout", "1500", "make", "-f", "Makefile.coq", "-j8"] + force + targets, cwd=COQ,
+                                   capture_output=True, text=True)
+                # a coqc that was killed (out of memory while other jobs run on the machine) says nothing about the
+                # proofs: wait and build again, with less parallelism
+                if r.returncode == 0 or not re.search(r"\bKilled\b|Out of memory|Cannot allocate|Terminated",
+                                                      r.stdout + r.stderr):
+                    break
+                self.notes.append(f"build attempt {attempt + 1}: a compiler process was killed; retrying")
+                time.sleep(30 * (attempt + 1))
         finally:
             lock.close()
         out = r.stdout + r.stderr
@@ -223,8 +231,14 @@ class Ctx:
         path = os.path.join(CASES, f"{self.prop}_{name}.v")
         with open(path, "w") as f:
             f.write(imports + "\n" + body + "\n")
-        r = subprocess.run(["timeout", str(timeout), "coqc", "-Q", ".", "CR", path], cwd=COQ, capture_output=True,
-                           text=True)
+        for attempt in range(4):
+            r = subprocess.run(["timeout", str(timeout), "coqc", "-Q", ".", "CR", path], cwd=COQ, capture_output=True,
+                               text=True)
+            # 0: evaluated; 1: an error of coqc's own (reported).  Anything else: the process was killed (timeout 124,
+            # SIGKILL 137 / -9 when the machine runs out of memory) - that is not an answer of the model: try again
+            if r.returncode in (0, 1) and "out of memory" not in r.stderr.lower():
+                break
+            time.sleep(20 * (attempt + 1))
         for ext in (".vo", ".vok", ".vos", ".glob"):
             try:
                 os.remove(path[:-2] + ext)
